@@ -6,5 +6,5 @@ export GOTOOLCHAIN=local GOFLAGS=-mod=mod GOPROXY=off GOSUMDB=off PATH=/opt/veri
 cd /verif
 mkdir -p $S
 go build -o $S/instr ./instr
-$S/instr -out $S/inst -overlay $S/overlay.json ${VERIF_REPO:-/repo}=github.com/danthegoodman1/bloomsearch=/repo /verif/hstore=verif/hstore /verif/scen=verif/scen
-go build -overlay $S/overlay.json -tags verif_sched -o $S/hsched ./cmd/hsched
+$S/instr -os -add /verif/hooks/zz_verif_hooks.go -out $S/inst -overlay $S/overlay.json ${VERIF_REPO:-/repo}=github.com/danthegoodman1/bloomsearch=/repo /verif/hstore=verif/hstore /verif/scen=verif/scen
+go build -overlay $S/overlay.json -tags verif,verif_sched -o $S/hsched ./cmd/hsched
